@@ -6,6 +6,8 @@ within reach decides it.  Bounded stand-in only (runtime/rt_c12.py: run-time con
 diagonally dominant / Laplacian-like systems, every preconditioner, local solver and max_full setting) -- never counted as proved.
 The argument guards of amen_solve are proved in C18.
 """
+import z3
+from ttvc import harness as H, tensors as T, interp as I
 from ttvc.oblig import scenario
 from .common import *
 from . import c18 as _c18
@@ -27,3 +29,38 @@ def _guards(ob, case):
 
 scenario('C12', 'guards', 'torchtt.solvers.amen_solve', quick=[dict(case=c) for c in ('amen_solve_types', 'amen_solve_kinds', 'amen_solve_square', 'amen_solve_shape')],
          expect='raise', replay='misuse')(_guards)
+
+
+def grid_solve():
+    out = []
+    for prec in (None, 'c', 'r'):
+        for max_full in (0, 500):
+            for ls in (1, 2):
+                if max_full == 500 and ls == 2:
+                    continue
+                out.append(dict(d=2, prec=prec, max_full=max_full, local_solver=ls, guess=(prec is None)))
+    return out
+
+
+@scenario('C12', 'amen_solve.no_raise_shape_frame', ['torchtt.solvers.amen_solve', 'torchtt.solvers._amen_solve_python', 'torchtt.solvers._LinearOp'],
+          quick=[g for g in grid_solve() if g['prec'] in (None, 'c') and g['max_full'] == 0 and g['local_solver'] == 1], thorough=grid_solve(), replay=None, max_paths=8000)
+def amen_solve_structure(ob, d, prec, max_full, local_solver, guess):
+    """amen_solve (one sweep; sizes, ranks symbolic; all value-dependent branches explored; local iterative solvers by their
+    ASSUMED shape contract): no exception for a compatible square system, result well formed with N = b.N, A, b and the
+    initial guess untouched"""
+    from . import hooks
+    ex = ob.ex
+    hooks.install(ex)
+    hooks.install_solvers(ex)
+    ex.havoc_range_loops = True      # the residual-driven truncation search loop `for r in range(u.shape[1]-1, 0, -1)` (loop contract)
+    N = H.sym_sizes(ex, 'n', d)
+    A = ob.tt('A', d, ttm=True, N=N, M=N, dtype='float64')
+    b = ob.tt('b', d, N=N, dtype='float64')
+    g = ob.tt('g', d, N=N, dtype='float64') if guess else None
+    f = ex.module('torchtt.solvers').env['amen_solve']
+    r = ex.call(f, [A, b], {'nswp': 1, 'x0': g, 'use_cpp': False, 'preconditioner': prec, 'max_full': max_full, 'local_solver': local_solver})
+    ob.wf(r)
+    fl = fields(ob, r)
+    ob.prove('kind', fl['is_ttm'] is False)
+    all_eq(ob, 'N', fl['N'], N)
+    ob.frame()
